@@ -4,7 +4,10 @@ from . import tz_jobs as J
 replay = J.replay_case
 def run(tier):
     jobs = [("MakeTime:N=%d,T=%d" % s, J.job_maketime, {"N": s[0], "T": s[1]}) for s in J.sizes(tier)]
-    return J.run_property("C02", tier, jobs, {"MakeTime": "make"},
+    from . import tz_ext
+    esz = [(2, 2)] if tier == "quick" else [(2, 2), (3, 2)]
+    jobs += [("ext-MakeTime-%s:N=%d,T=%d" % (m, n, t), tz_ext.job_maketime_ext, {"N": n, "T": t, "mode": m}) for n, t in esz for m in ("beyond", "within")]
+    return J.run_property("C02", tier, jobs, {"MakeTime": "make", "ext-MakeTime": "make"},
         "SMT over every civil second (ordinal from civil_second::min() to ::max()), every well-formed table of the stated sizes, every hint value.",
-        ["tables N x T in %s; cs any civil second" % J.sizes(tier)])
+        ["tables N x T in %s; cs any civil second; extended tables %s" % (J.sizes(tier), esz)], ext=True)
 if __name__ == "__main__": sys.exit(run(sys.argv[1] if len(sys.argv) > 1 else "quick"))
